@@ -207,7 +207,11 @@ def rule_r2(chk, prog):
                   f'a result arriving while the abort flag is set is '
                   f'processed ({touched[:2]}) instead of skipped',
                   loc=m.loc(fl), nontrivial=True)
-    chk.floor('C02.R3', 'paths with the flag set', nset, 1)
+    chk.check('C02.R3', where, 'the result loop consults the abort flag',
+              nset >= 1, 'no path of the result loop tests the abort flag: '
+              'results that arrive after a success (computed against the '
+              'superseded input) are processed as if they had been tested '
+              'against the new one', loc=m.loc(fl), nontrivial=True)
     # who may set the flag
     nset = 0
     for om in prog.pkg_modules():
